@@ -43,7 +43,27 @@ FOCUS_W3 = {
  'C17': "u16 <-> u8, f32 -> u8 / u16 (rounding, saturation, NaN) and u16 -> i32",
  'C18': "the 8-bit horizontal kernels (initial rounding constant, clip) on AVX2",
 }
-FOCUS = FOCUS_W3 if tag.startswith('w3') else FOCUS_W2
+FOCUS_W4 = {
+ 'C01': "the portable kernels of the floating-point and i32 pixel types (src/convolution/f32x1 .. f32x4, i32x1, vertical_f32) and the filter functions in src/convolution/filters.rs",
+ 'C02': "the SSE4.1 / AVX2 kernels of the 16-bit pixel types (src/convolution/u16x1, u16x2, u16x4, vertical_u16) - coefficient loading, shuffles, remainders",
+ 'C03': "the load / store widths and pointer offsets of the vertical SIMD kernels (src/convolution/vertical_u8, vertical_u16, vertical_f32) and of src/simd_utils.rs",
+ 'C05': "the portable kernels (src/convolution/*/native.rs): which rows and columns they visit",
+ 'C06': "src/alpha/u16x2 and src/alpha/f32x4 (all back-ends)",
+ 'C07': "the prologue of Resizer::resize_typed / resize in src/resizer.rs (option handling, which algorithm paths apply alpha, SuperSampling's intermediate image)",
+ 'C09': "get_temp_image_from_buffer / the three scratch buffers of Resizer and their alignment / length arithmetic",
+ 'C10': "src/convolution/filters.rs (kernel functions and their supports) and the window bounds in precompute_coefficients",
+ 'C13': "src/images/image.rs (Image / ImageRef: typed_image, image_view, copy, from_slice_u8) and src/images/cropped_image.rs",
+ 'C18': "src/convolution/filters.rs (sign of kernels) and the portable 8-bit vertical kernel",
+ 'C11': "the row direction of resample_nearest and its interplay with iter_rows of different containers",
+ 'C12': "the one-dimension-matches case (only a horizontal or only a vertical pass needed) for all pixel types",
+ 'C04': "CroppedImage / CroppedImageMut (dynamic) constructors and ResizeOptions::crop validation in CroppedSrcImageView",
+ 'C08': "anything under the rayon feature not touched so far: src/threading.rs helper macros, the parts-number heuristics, alpha operations in threads",
+ 'C14': "split_by_width of TypedCroppedImage and split_by_height of nested views",
+ 'C15': "fit_src_into_dst_size ratio arithmetic",
+ 'C16': "the gamma 2.2 mapper and the in-place mapping paths",
+ 'C17': "f32 <-> i32 and u8 -> f32 / u16 -> f32 conversions",
+}
+FOCUS = FOCUS_W4 if tag.startswith('w4') else (FOCUS_W3 if tag.startswith('w3') else FOCUS_W2)
 os.makedirs('/tmp/wt', exist_ok=True)
 tmpl = open(os.path.join(os.path.dirname(os.path.abspath(__file__)), 'prompt_template.txt')).read()
 for line in open('/verif/properties.jsonl'):
